@@ -178,7 +178,7 @@ def stub_via_cli(modname, traces, case):
         st.add(traces)
         st.conn.close()
         out, err = io.StringIO(), io.StringIO()
-        rc = cli.main(["-c", "mtg_config:CONFIG", "stub", modname] + CLI_FLAGS[case["strategy"]], out, err)
+        rc = cli.main(["-c", "mtg_config:CONFIG"] + list(case.get("cli_extra", [])) + ["stub", modname] + CLI_FLAGS[case["strategy"]], out, err)
         if rc != 0:
             raise RuntimeError("stub exited %s: %s" % (rc, err.getvalue()[-200:]))
         return out.getvalue().rstrip("\n")
@@ -507,7 +507,10 @@ def gen_c12(tier, seed):
     return cases
 
 
-SRC_ANNS = [None, "int", "List[int]", "Optional[int]", "'Own'", "ExtId", "zutil.A"]
+SRC_ANNS = [None, "int", "List[int]", "Optional[int]", "'Own'", "ExtId", "zutil.A",
+            # string annotations that merely CONTAIN Optional / None somewhere inside
+            # (spelled with builtins only: a stub does not import the names used inside a quoted annotation)
+            "'dict[str, int | None]'", "'tuple[int, None]'"]
 
 
 def gen_c13(tier, seed):
@@ -537,6 +540,27 @@ def gen_c13(tier, seed):
             cases.append({"funcs": [f], "strategy": strategy, "k": 0, "family": "c13_matrix"})
             if n % 4 == 0:    # the same cell through `monkeytype stub [--omit-existing-annotations | --ignore-existing-annotations]`
                 cases.append({"funcs": [f], "strategy": strategy, "k": 0, "family": "c13_matrix_via_cli", "via_cli": True})
+                if n % 8 == 0:    # ... combined with the other stub options
+                    cases.append({"funcs": [f], "strategy": strategy, "k": 0, "family": "c13_matrix_via_cli", "via_cli": True,
+                                  "cli_extra": ["--disable-type-rewriting"]})
+                    cases.append({"funcs": [f], "strategy": strategy, "k": 0, "family": "c13_matrix_via_cli", "via_cli": True,
+                                  "cli_extra": ["--limit", "50"]})
+    # the cell in a parameter of another kind: positional-only, keyword-only, *args, **kwargs (the variadics are never traced)
+    for kind in ("posonly", "kwonly", "varpos", "varkw"):
+        for a in SRC_ANNS:
+            for t in ([None] if kind.startswith("var") else [None, STR]):
+                for d in ((None,) if kind.startswith("var") else (None, "None")):
+                    n += 1
+                    ps = [{"name": "p0", "kind": "poskw", "default": None}, {"name": "q", "kind": kind, "default": d, "ann": a}]
+                    if kind == "posonly":
+                        ps = [ps[1], dict(ps[0], default=d)]      # a default after a defaulted positional-only one
+                    targs = dict({"p0": INT}, **({"q": t} if t is not None else {}))
+                    fk, cont = [("module", []), ("instance", ["Cls"]), ("static", ["Cls"])][n % 3]
+                    for strategy in ("REPLICATE", "OMIT", "IGNORE"):
+                        f = {"name": "k%d" % n, "container": cont, "fkind": fk, "params": ps, "ret_ann": None,
+                             "traces": [{"args": dict(targs), "ret": INT, "yld": None}]}
+                        cases.append({"funcs": [f], "strategy": strategy, "k": 0, "family": "c13_matrix_other_parameter_kinds",
+                                      "via_cli": n % 5 == 0})
     # an annotated receiver: under OMIT it must carry no annotation like every other annotated position
     for n, (fk, recv_ann) in enumerate([("instance", "'Cls'"), ("class", "type"), ("instance", "Any")] * (2 if tier == "quick" else 20)):
         params = [{"name": "p0", "kind": "poskw", "default": None, "ann": "int" if n % 2 else None}]
